@@ -596,11 +596,12 @@ def uniform (o : Obs) : Bool :=
 def noDup (o : Obs) : Bool :=
   nodupB (o.translations.map (·.lang)) && o.translations.all fun t => nodupB t.ids
 
-/-- when the default language is one of the translations, it is the only one marked default -/
+/-- a translation is marked default exactly when its name *is* the default language: when the default
+language is one of the translations it is the only one marked, and a near miss of the setting (the name
+without its `(code)`, another letter case, the code alone) marks nothing — so at most one translation is ever
+marked (given `noDup`) -/
 def defaultOk (o : Obs) : Bool :=
-  if (o.translations.map (·.lang)).contains o.defaultLanguage then
-    o.translations.all fun t => t.isDefault == (t.lang == o.defaultLanguage)
-  else true
+  o.translations.all fun t => t.isDefault == (t.lang == o.defaultLanguage)
 
 def holds (o : Obs) : Bool := refsExist o && uniform o && noDup o && defaultOk o
 
